@@ -63,18 +63,29 @@ func parseSpec(s string) []int {
 
 // typesHashChild: vh typeshash <i,j,k,...> registers pool types in that order and prints the hash.
 func typesHashChild(a []string) {
-	for _, i := range parseSpec(a[0]) {
-		cache.GobRegister(c14Pool[i])
-	}
+	registerSpec(a[0])
 	fmt.Println(cache.GobTypesHash())
+}
+
+// registerSpec registers pool types: comma separated calls, '+' joins several types into one variadic GobRegister call.
+func registerSpec(spec string) {
+	for _, call := range strings.Split(spec, ",") {
+		if call == "" {
+			continue
+		}
+		var vals []interface{}
+		for _, p := range strings.Split(call, "+") {
+			n, _ := strconv.Atoi(p)
+			vals = append(vals, c14Pool[n])
+		}
+		cache.GobRegister(vals...)
+	}
 }
 
 // exporterChild: vh exporter <spec> - a separate process with its own registered type set serving one export request
 // read from stdin (HTTP/1.1 request) and writing the response to stdout.
 func exporterChild(a []string) {
-	for _, i := range parseSpec(a[0]) {
-		cache.GobRegister(c14Pool[i])
-	}
+	registerSpec(a[0])
 	c := cache.NewShardedMap()
 	for i := 0; i < 5; i++ {
 		_ = c.Write(bg, []byte(fmt.Sprintf("remote-%d", i)), fmt.Sprintf("value-%d", i))
@@ -158,7 +169,7 @@ func init() {
 			"transport modes {normal, typesHash tampered, body truncated at k, body failing at k}; oracle: common names equal the exporter's content, names unknown to the exporter get 404 and keep their sentinel entries, tampered hash gets 400 and nothing is imported, " +
 			"truncated/failing bodies import a subset without panic; types hash: child processes register seeded permutations/multisets of a pool of 12 types (equal sets => equal hash in every process, set plus one type => different hash); " +
 			"a genuinely separate exporter process with a different type set serves over stdin/stdout and nothing may be imported; distinct_nontrivial = distinct (names on both sides, mode, backend pairing) transfer cells + distinct type sets hashed",
-		Required:    []string{"transfers.normal", "transfers.tampered", "transfers.truncated", "transfers.failbody", "status.404", "status.400", "status.200", "hash.processes", "hash.sets_compared", "hash.added_type_differs", "twoprocess.transfers", "entries.imported"},
+		Required:    []string{"transfers.normal", "transfers.tampered", "transfers.truncated", "transfers.failbody", "status.404", "status.400", "status.200", "hash.processes", "hash.sets_compared", "hash.added_type_differs", "hash.variadic_groupings", "twoprocess.transfers", "entries.imported"},
 		Assumptions: []string{"GobTypesHashReset is a test helper and is never called; the registered set is what a fresh process registered"},
 		Timeout:     func(string) time.Duration { return 20 * time.Minute },
 	})
@@ -374,14 +385,33 @@ func c14Hash(b *Batch, idx int) {
 			}
 			rng.Shuffle(len(order), func(i, j int) { order[i], order[j] = order[j], order[i] })
 		}
-		h, err := c14RunSelf("typeshash", specOf(order))
+		spec := specOf(order)
+		if v == 2 || rng.Intn(2) == 0 {
+			// group consecutive registrations into variadic calls
+			var sb strings.Builder
+			for i, x := range order {
+				if i > 0 {
+					if rng.Intn(2) == 0 {
+						sb.WriteByte('+')
+					} else {
+						sb.WriteByte(',')
+					}
+				}
+				sb.WriteString(strconv.Itoa(x))
+			}
+			spec = sb.String()
+			if strings.Contains(spec, "+") {
+				b.R.Count("hash.variadic_groupings", 1)
+			}
+		}
+		h, err := c14RunSelf("typeshash", spec)
 		if err != nil {
 			b.R.Inconcl("C14 typeshash child failed: " + err.Error())
 			return
 		}
 		b.R.Count("hash.processes", 1)
 		hashes = append(hashes, h)
-		specs = append(specs, specOf(order))
+		specs = append(specs, spec)
 	}
 	b.R.Eval()
 	b.R.Count("hash.sets_compared", 1)
